@@ -285,7 +285,13 @@ nnls_normal_block(cholmod_sparse *AtA, cholmod_dense *Atb, int verbose,
         int i, j, k, trials, murty_steps, iter;
 
         /* XXX: make these settable? */
-        iter = 3*nvar;                /* Maximum number of iterations */
+        /*
+         * Maximum number of iterations. In single-pivot (Murty) mode, which
+         * small problems never leave, up to 2^nvar - 1 pivots can be needed.
+         */
+        iter = 3*nvar;
+        if (nvar < 20 && iter < (1 << nvar))
+                iter = (1 << nvar);
         trials = MAX_TRIALS;        /* Runs without progress before reverting
                                  * to a deterministic algorithm */
         murty_steps = MAX_TRIALS;
@@ -498,7 +504,13 @@ nnls_normal_block_updown(cholmod_sparse *AtA, cholmod_dense *Atb, int verbose,
         clock_t t0, t1;
 
         /* XXX: make these settable? */
-        iter = 3*nvar;                /* Maximum number of iterations */
+        /*
+         * Maximum number of iterations. In single-pivot (Murty) mode, which
+         * small problems never leave, up to 2^nvar - 1 pivots can be needed.
+         */
+        iter = 3*nvar;
+        if (nvar < 20 && iter < (1 << nvar))
+                iter = (1 << nvar);
         trials = MAX_TRIALS;        /* Runs without progress before reverting
                                  * to a deterministic algorithm */
         murty_steps = MAX_TRIALS;
